@@ -62,6 +62,10 @@ type Config struct {
 	StructLiteralInContainer  bool // struct literals inside list/set/map literals: do not compile under value_type_in_container
 	CrossFileLiteralIdents    bool // identifiers (constants, enum members) inside a literal of a struct that is defined in ANOTHER file: resolved in the wrong scope, index out of range in getIDValue
 	ExponentDoubles      bool // 1.5e-3: the parser takes the exponent for the value (DESIGN §7, C03)
+	CrossFileLiteralForeignTypes bool // literal of a struct from another file that sets a member whose type lives in a third file: unused import
+	StructConstByIdent    bool // struct-typed constant/default given by the identifier of another constant: the type's package is imported but unused
+	BinaryConstIdents     bool // binary constant referenced by identifier where Go wants a string (map key): []byte vs string
+	CrossFileScalarConstType bool // `const b.T C = 1` with b.T an enum / typedef of a base type of another file: Go constant is untyped, import unused
 	OptionalEnumInLiteral bool // struct literal that sets an optional enum member: `&EnumConst` (address of a constant) does not compile
 	ShortPackageNames    bool // files without go namespace whose base name is a single letter: package c/b/p/… is shadowed by locals of the templates
 	DupThrows            bool // the same exception type twice in one throws list (duplicate case in the processor's type switch)
@@ -862,6 +866,10 @@ func (g *gen) constDef(fi int) *ConstDef {
 	var t *Type
 	for try := 0; try < 10; try++ {
 		t = g.genType(ctx, 2)
+		if t.Kind == Named && t.Named.File != fi && g.p.catOf(t) != 's' && g.p.catOf(t) != 'c' && !g.cfg.CrossFileScalarConstType {
+			t = nil
+			continue
+		}
 		if g.constable(t, 0, false) {
 			break
 		}
@@ -983,7 +991,8 @@ var niceStrings = []string{"", "a", "hello", "Hello World", "x_y", "0", "true", 
 // default or constant body (identifiers allowed).
 func (g *gen) constOf(fi int, t *Type, depth int, top bool) *Const {
 	// by identifier of a matching constant
-	if g.cfg.ConstIdents && g.noIdent == 0 && g.r.Chance(20) {
+	if g.cfg.ConstIdents && g.noIdent == 0 && g.r.Chance(20) &&
+		(g.cfg.StructConstByIdent || g.p.catOf(t) != 's') && (g.cfg.BinaryConstIdents || g.p.deref(t).Kind != Binary) {
 		key := g.typeKey(t)
 		var cand []constInfo
 		for _, c := range g.consts {
@@ -1115,6 +1124,9 @@ func (g *gen) constOf(fi int, t *Type, depth int, top bool) *Const {
 			if take && !g.cfg.OptionalEnumInLiteral && g.p.catOf(fd.Type) == 'e' && (fd.Req == Optional || st.Kind == 'u') && fd.Default == nil && !g.will[fd] {
 				take = false
 			}
+			if take && !g.cfg.CrossFileLiteralForeignTypes && d.Named.File != fi && mentionsOtherFile(fd.Type, d.Named.File) {
+				take = false
+			}
 			if !take {
 				c.Val.E = append(c.Val.E, z)
 				continue
@@ -1127,6 +1139,18 @@ func (g *gen) constOf(fi int, t *Type, depth int, top bool) *Const {
 		return c
 	}
 	panic("idlgen: constOf")
+}
+
+func mentionsOtherFile(t *Type, file int) bool {
+	switch t.Kind {
+	case List, Set:
+		return mentionsOtherFile(t.Elem, file)
+	case Map:
+		return mentionsOtherFile(t.Key, file) || mentionsOtherFile(t.Elem, file)
+	case Named:
+		return t.Named.File != file
+	}
+	return false
 }
 
 func (g *gen) includes(fi, k int) bool {
